@@ -17,6 +17,28 @@ Theorem C12_handler_dropped : forall max handler st q st',
   ss st' = SDropped /\ sstep max handler st' HandlerReturn = None /\ sstep max handler st' TryDecode = None.
 Proof. exact handler_dropped. Qed.
 
+(** A request given up while it still waits for the service to become ready (a service that applies
+    back-pressure through poll_ready) is never handed to the handler: the stream closes, the invocation
+    count stays where it was (0), and neither a dispatch nor a handler return can follow. *)
+Theorem C12_abandoned_while_queued_never_invoked : forall max handler st q st',
+  ss st = SQueued q -> sstep max handler st NoticeStop = Some st' ->
+  ss st' = SDropped /\ invocations st' = invocations st
+  /\ sstep max handler st' Dispatch = None /\ sstep max handler st' HandlerReturn = None.
+Proof. exact queued_dropped_never_invoked. Qed.
+
+Example C12_queued_ex :   (* decoded, waiting for readiness, the caller gives up: closed with 0 invocations *)
+  let h (q : request) := mkResponse 1 Success [] (rq_body q) [] in
+  match enc_request 100 (mkRequest 1 [47] [] [7] []) with
+  | Ok w =>
+      match crun 100 h [open_stream w] [(0%nat, Write 1000); (0%nat, Fin); (0%nat, Recv 1000); (0%nat, TryDecode);
+                                        (0%nat, Abandon); (0%nat, NoticeStop)] with
+      | Some [s] => ss s = SDropped /\ invocations s = 0%nat /\ sstep 100 h s Dispatch = None
+      | _ => False
+      end
+  | Err _ => False
+  end.
+Proof. vm_compute. repeat split. Qed.
+
 Theorem C12_closed_is_absorbing : forall max handler st l st',
   closed (ss st) = true -> sstep max handler st l = Some st' ->
   ss st' = ss st /\ invocations st' = invocations st.
@@ -47,3 +69,4 @@ Print Assumptions C12_closed_is_absorbing.
 Print Assumptions C12_stream_closes.
 Print Assumptions C12_no_credit_leak.
 Print Assumptions C12_siblings_unaffected.
+Print Assumptions C12_abandoned_while_queued_never_invoked.
